@@ -2,6 +2,7 @@ import Driver.Util
 import Driver.C15
 import Paroxy.Model.NodeFeature
 import Paroxy.Spec.NodeFeature
+import Paroxy.Model.WholeSpan
 open Lean Paroxy.Flat
 
 namespace Driver.C01
@@ -44,7 +45,34 @@ def spec : Handler := fun j => do
   pure (Json.mkObj [("nodes", Json.arr (ps.map fun p => Json.arr #[strJ p.1, Json.num (p.2 : Nat)]).toArray),
     ("wf", Json.bool (treeOk t'))])
 
+/-- `c01.whole`: the hand matcher of the `whole_span` pattern and its bindings. -/
+def whole : Handler := fun j => do
+  let ls ← C15.getLines j
+  let m := match wholeSpanMatch? ls with
+    | some (pos, sfx) => Json.mkObj [("pos", Json.arr (pos.map strJ).toArray), ("suffix", Json.arr (sfx.map strJ).toArray)]
+    | none => Json.null
+  let b := match wholeSpanBindings? ls with
+    | some bs => Json.mkObj [("bindings", Json.arr (bs.map bindingJson).toArray)]
+    | none => Json.mkObj [("exc", "ValueError")]
+  pure (Json.mkObj [("match", m), ("bindings", b)])
+
+/-- `c01.tree_span`: the hypotheses of the C02 span theorems evaluated on the (tweaked) tree, and the
+first / last positioned line in dump order. -/
+def treeSpan : Handler := fun j => do
+  let t ← C15.getTree j
+  let t' := tweak [] (onTheFly specCfg t)
+  let ps := positionedNodes t'
+  let first := match ps.head? with
+    | some p => Json.num (p.2 : Nat)
+    | none => Json.null
+  let last := match ps.getLast? with
+    | some p => Json.num (p.2 : Nat)
+    | none => Json.null
+  pure (Json.mkObj [("wf2", Json.bool (treeOk2 t')),
+    ("monotone", Json.bool (decide (PreorderMonotone (entries [] [] t')))),
+    ("first", first), ("last", last), ("count", Json.num (ps.length : Nat))])
+
 def handlers : List (String × Handler) :=
-  [("c01.matches", matchesH), ("c01.bindings", bindings), ("c01.model", model), ("c01.spec", spec)]
+  [("c01.matches", matchesH), ("c01.bindings", bindings), ("c01.model", model), ("c01.spec", spec), ("c01.whole", whole), ("c01.tree_span", treeSpan)]
 
 end Driver.C01
